@@ -33,3 +33,50 @@ Theorem C03_future_markers_are_later_versions : forall s n E past future,
   forall x, In x future -> n < x /\ x <= E.
 Proof. exact MarkerBounds.get_marker_versions_future. Qed.
 Print Assumptions C03_future_markers_are_later_versions.
+
+(* ------------------------------------------------------------------ END TO END *)
+From Akd Require HistEnd.
+
+(* After ANY sequence of publish requests: the history proof returned for a label - for Complete and
+   for MostRecent(n), verified in Default mode (am = false) or with AllowMissingValues (am = true) -
+   is ACCEPTED by key_history_verify against the returned epoch hash, and the result is exactly
+   the requested part of the label's stored account (hist_data: all of the label's states, newest
+   first, or the first n of them), each entry with its epoch, version and value.
+   Premises: the VRF layer (C18) - outputs are well-formed non-colliding 256-bit labels and the
+   server's proof verifies to its output. *)
+Theorem C03_history_accepted_and_exact :
+  forall cfg ck (vrf_label : bytes -> bool -> N -> option nlabel) (vrf_proof : bytes -> bool -> N -> option bytes)
+         (vrf_check : bytes -> bytes -> bytes -> option bytes) (pk : bytes),
+  canonical (c_empty_label cfg) = false ->
+  (forall l f v nl, vrf_label l f v = Some nl -> NodeLabelFacts.WF nl /\ canonical nl = true /\ llen nl = 256) ->
+  (forall l f v l' f' v' nl, vrf_label l f v = Some nl -> vrf_label l' f' v' = Some nl -> l = l' /\ f = f' /\ v = v') ->
+  (forall l f v nl pr, vrf_label l f v = Some nl -> vrf_proof l f v = Some pr ->
+     vrf_check pk pr (label_input_hash cfg l f v) = Some (lval nl)) ->
+  forall reqs l params am p eh,
+  let st := DirRefine.run_publishes cfg ck vrf_label dir_new reqs in
+  key_history cfg ck vrf_label vrf_proof st l params = DOk (p, eh) ->
+  key_history_verify cfg vrf_check pk (snd eh) (fst eh) l p params am =
+  Some (map HistEnd.entry (HistEnd.hist_data st l params)).
+Proof. exact HistEnd.key_history_reachable. Qed.
+Print Assumptions C03_history_accepted_and_exact.
+
+(* ... and that stored account is complete: in every reachable state the label's states, newest
+   first, carry the versions N, N-1, ..., 1 (N = their number) with strictly decreasing epochs *)
+Theorem C03_account_is_every_version :
+  forall cfg ck (vrf_label : bytes -> bool -> N -> option nlabel) (vrf_proof : bytes -> bool -> N -> option bytes)
+         (vrf_check : bytes -> bytes -> bytes -> option bytes) (pk : bytes),
+  canonical (c_empty_label cfg) = false ->
+  (forall l f v nl, vrf_label l f v = Some nl -> NodeLabelFacts.WF nl /\ canonical nl = true /\ llen nl = 256) ->
+  (forall l f v l' f' v' nl, vrf_label l f v = Some nl -> vrf_label l' f' v' = Some nl -> l = l' /\ f = f' /\ v = v') ->
+  (forall l f v nl pr, vrf_label l f v = Some nl -> vrf_proof l f v = Some pr ->
+     vrf_check pk pr (label_input_hash cfg l f v) = Some (lval nl)) ->
+  forall reqs, HistEnd.Inv3 cfg ck vrf_label (DirRefine.run_publishes cfg ck vrf_label dir_new reqs).
+Proof. exact HistEnd.inv3_reachable. Qed.
+Print Assumptions C03_account_is_every_version.
+
+Theorem C03_account_shape : forall cfg ck (vrf_label : bytes -> bool -> N -> option nlabel) st,
+  HistEnd.Inv3 cfg ck vrf_label st -> forall l,
+  let h := user_history (d_states st) l (d_epoch st) in
+  map vr_version h = HistEnd.countdown (N.of_nat (length h)) (length h) /\ HistEnd.sdesc h.
+Proof. exact HistEnd.i3_hist. Qed.
+Print Assumptions C03_account_shape.
